@@ -1408,3 +1408,23 @@ Example C06_pipe_nonvacuous :
                  [[50; 44; 51; 121; 32; 97]; [114; 120; 32; 97; 32; 106]; [36; 112; 117; 32; 97]; [49; 114; 32; 33; 99]; [50; 44; 51; 33; 106]]%N true) in
    texts s = [[76; 49]; [88; 43; 89]; [76; 50]; [76; 51]; [76; 52]; [88; 43; 89]]%N /\ flags s = F_EOF /\ xrow s = 2).
 Proof. exact ExPipeProps.pipe_nonvacuous. Qed.
+
+(* ... and for a class of oracles that run EXISTS, for every NUL-free line shorter than EXLEN (coq/TrExParseTotal.v): `oracle_ok ext .. T` says
+   that ex_txt answers the position the model computes, that after every call the line, loc / cmd / arg, the command table and the literals
+   are still there, that the txt cell holds NULL or a pointer (T: what the oracles keep true of it) and that free(txt) is accepted.  Then
+   ex_exec returns after at most one command per byte, having performed the model's run *)
+From NV Require TrExParseTotal.
+Theorem C06_tr_ex_exec_total : forall ext T m bs s d fuel,
+  CLiteProps.str_at m bs s -> nonul s -> Z.of_nat (length s) < GenConsts.EXLEN ->
+  (length GenCFuncs.cglobals <= bs)%nat -> (2 * S (length s) <= fuel)%nat -> (S TrExIdx.NCMDS < fuel)%nat ->
+  TrExParseTotal.oracle_ok ext bs s (length m) (S (length m)) (S (S (length m))) T ->
+  TrExParse.frame_ok bs s (length m) (S (length m)) (S (S (length m))) (TrExParse.exec_mem m) ->
+  exists n tr ret m', (n <= length s)%nat /\
+    TrExParse.runs ext bs s (length m) (S (length m)) (S (S (length m))) n tr 0 0 (TrExParse.exec_mem m) ret m' /\
+    CLiteExt.callx ext GenCFuncs.cprog fuel (S (S d)) GenCFuncs.F_ex_exec [CLite.VPtr bs 0] m = CLite.Ok (CLite.VInt ret, m').
+Proof. exact TrExParseTotal.tr_ex_exec_total. Qed.
+Print Assumptions C06_tr_ex_exec_total.
+(* the class is not empty: the oracle that answers ex_txt with the model's position, lets every command return 0 and leaves the memory alone *)
+Example C06_tr_oracle_ok_nonvacuous : forall bs s bl bc ba,
+  TrExParseTotal.oracle_ok (TrExParseTotal.ok_ext s) bs s bl bc ba (fun m bt => nth_error m bt = Some [CLite.VInt 0]).
+Proof. exact TrExParseTotal.ok_ext_ok. Qed.
